@@ -17,6 +17,7 @@ import (
 //
 // line:  sim cfg <pppppp|rrrrrr|…> <charset> <enc table r=hex[!],…>; op; op; …
 //   S x y main comb style | F r style | Y style (SetStyle) | C x y (ShowCursor) | D (HideCursor) | W (Show) | N (Sync) | Z w h (SetSize)
+//   L x y w h 0|1 (LockRegion: screen.go:424 is shared by every backend; a locked cell is not judged while locked)
 //   K key rune mod (InjectKey) | M x y buttons mod (InjectMouse) | B hex dectable (InjectKeyBytes → b:0|1)
 //   R r hex | U r (Register/UnregisterRuneFallback) | Q r flag (CanDisplay → q:0|1)
 //   G (observe GetContents + GetCursor) | P (observe the events polled so far) | T (observe Size())
@@ -52,6 +53,7 @@ type simRun struct {
 	res      *h.Result
 	tags     map[string]bool
 	cells    map[[2]int]*simShadowCell
+	locked   map[[2]int]bool // cells inside a locked region: not drawn, hence not judged, until unlocked
 	fb       map[rune]string
 	fbAt     map[rune]int
 	scrStyle StyleF
@@ -206,6 +208,11 @@ func (s *simRun) checkFront(after string, strict bool) {
 			if width == 0 || main < ' ' {
 				main, width = ' ', 1
 			}
+			if s.locked[[2]int{x, y}] {
+				s.tags["locked-cell-skipped"] = true
+				x += width
+				continue
+			}
 			got := cells[y*pw+x]
 			// the resolved style last set: the cell's own style, StyleDefault → the screen style (at this Sync; after a Show
 			// the one in effect at some Show since the last full redraw, because a clean cell is not repainted)
@@ -311,7 +318,7 @@ func execSim(line string) h.Result {
 		return res
 	}
 	s := &simRun{scr: scr, cd: cd, syncCh: make(chan int, 4), res: &res, tags: map[string]bool{}, cells: map[[2]int]*simShadowCell{},
-		fb: map[rune]string{}, fbAt: map[rune]int{}, lastFull: -1, fullPending: true}
+		fb: map[rune]string{}, fbAt: map[rune]int{}, lastFull: -1, fullPending: true, locked: map[[2]int]bool{}}
 	for k, v := range tcell.RuneFallbacks {
 		s.fb[k] = v
 	}
@@ -368,6 +375,22 @@ func execSim(line string) h.Result {
 				}
 			}
 			s.tags["fill"] = true
+		case f[0] == "L" && len(f) == 6:
+			x, y, lw, lh, on := h.Atoi(f[1]), h.Atoi(f[2]), h.Atoi(f[3]), h.Atoi(f[4]), f[5] == "1"
+			scr.LockRegion(x, y, lw, lh, on)
+			w, hh := scr.Size()
+			for j := y; j < y+lh; j++ {
+				for k := x; k < x+lw; k++ {
+					if k >= 0 && j >= 0 && k < w && j < hh {
+						if on {
+							s.locked[[2]int{k, j}] = true
+						} else {
+							delete(s.locked, [2]int{k, j})
+						}
+					}
+				}
+			}
+			s.tags["lock"] = true
 		case f[0] == "Y" && len(f) == 2:
 			st := ParseStyleF(f[1])
 			scr.SetStyle(st.ToStyle())
@@ -434,6 +457,9 @@ func execSim(line string) h.Result {
 			olw, olh := scr.Size()
 			from := s.nEvents()
 			scr.SetSize(w, hh)
+			if w != olw || hh != olh {
+				s.locked = map[[2]int]bool{} // CellBuffer.Resize makes new cells: no lock survives
+			}
 			nc, nw, nh := scr.GetContents()
 			if nw != w || nh != hh || len(nc) != w*hh {
 				s.finding("setsize-size", "SetSize(%d,%d): GetContents reports %dx%d with %d cells", w, hh, nw, nh, len(nc))
@@ -814,8 +840,19 @@ func genSim(g *h.Gen) {
 				ops = append(ops, fmt.Sprintf("S %d %d %d %s %s", x, y, m, h.ShowIntList(comb), style()))
 			case k < 33:
 				fr := h.Pick(r, []int{' ', 'x', '.', 0x2500, 0xe9})
+				if r.Chance(20) { // runes that cannot be shown in a cell of their own: such cells show blanks (C18 via C08's width rule)
+					fr = h.Pick(r, []int{0x200b, 0x200d, 0x301, 0x7f, 0x9b, 0xad, 0x2060, 0xfeff})
+				}
 				used[rune(fr)] = true
 				ops = append(ops, fmt.Sprintf("F %d %s", fr, style()))
+				if r.Chance(15) {
+					lx, ly := r.Range(0, w), r.Range(0, hh)
+					ops = append(ops, fmt.Sprintf("L %d %d %d %d 1", lx, ly, r.Range(1, 2), r.Range(1, 2)))
+					if r.Chance(60) { // a wide rune just left of the region, a change inside, a Show, the unlock
+						used[0x4e16] = true
+						ops = append(ops, fmt.Sprintf("S %d %d %d - %s", lx-1, ly, 0x4e16, style()), "W", fmt.Sprintf("L %d %d 2 2 0", lx, ly))
+					}
+				}
 			case k < 37:
 				ops = append(ops, fmt.Sprintf("Y %s", style()))
 			case k < 43:
